@@ -108,6 +108,8 @@ func PushCheck(sc sim.Scenario, h *sim.History) []Problem {
 	var stops, restarts []int
 	outstanding := map[string]bool{}
 	inHandlerCancel := map[int]int{} // nonce -> seq at which its handler context ended
+	wokeSeq := map[string]int{}      // callback id -> seq at which its waiter was handed an outcome (first use of the id)
+	idUses := map[string]int{}
 	for _, e := range h.Events {
 		switch e.Kind {
 		case "push":
@@ -131,6 +133,7 @@ func PushCheck(sc sim.Scenario, h *sim.History) []Problem {
 				c := get(r.inside, r.key)
 				c.reqs = append(c.reqs, r)
 				if r.id != "" {
+					idUses[r.id]++
 					if outstanding[r.id] {
 						add("C09/callback-id-reused-while-outstanding", "callback request %s reuses id %s of a callback that is still outstanding", e.Data, r.id)
 					}
@@ -156,6 +159,10 @@ func PushCheck(sc sim.Scenario, h *sim.History) []Problem {
 			c.rets = append(c.rets, e)
 			for _, r := range c.reqs {
 				delete(outstanding, r.id)
+			}
+		case "woke":
+			if _, ok := wokeSeq[e.ID]; !ok {
+				wokeSeq[e.ID] = e.Seq
 			}
 		case "pushcancel":
 			if c := get(false, e.K); c.ctxEndSeq < 0 {
@@ -399,6 +406,10 @@ func PushCheck(sc sim.Scenario, h *sim.History) []Problem {
 		case "ctx-canceled":
 			if c.ctxEndSeq < 0 || c.ctxEndSeq > ret.Seq {
 				add("C09/cancelled-without-cause", "%s returned context.Canceled but nothing had cancelled its context or stopped the server", name)
+			} else if ws, ok := wokeSeq[id]; ok && !c.inside && idUses[id] == 1 && c.deadline == 0 && ws < c.ctxEndSeq && len(mine) > 0 {
+				// the waiter had been handed its outcome before anything ended the
+				// context: that outcome was the reply, and the reply is what must be returned
+				add("C09/reply-replaced-by-context-error", "%s (id %s) had received its outcome (#%d) before its context ended (#%d) - the reply %s - yet it returned context.Canceled", name, id, ws, c.ctxEndSeq, mine[0].rec)
 			}
 		case "ctx-deadline":
 			if c.deadline == 0 || (ret.T-c.pushT) < int64(c.deadline)*1e6 {
